@@ -74,6 +74,10 @@ def run(idx, rep, tier):
     r3(idx, rep)
     r4(idx, rep)
     r5(idx, rep)
+    # what the assignment reads: the current value as the csvpath holds it ('' and 'None' are values), y by header name as the headers are now
+    from . import c03, c06
+    c03.matcher_forwards(idx, rep, "R2")
+    c06.header_value_sequence(idx, rep, "R2")
     # the table above runs on the checker's own small values, for which `is` and `==` coincide; the analysed code must not depend on that
     n = 0
     for cls in ("Equality", "Qualified", "Variable", "Matchable"):
